@@ -28,6 +28,10 @@ impl Slice {
 pub struct StructDef { pub lifetimes: LifetimeEnv }
 // E12: hir::Type<P> with the variants alloc_name distinguishes
 pub enum Type { Struct(u8), Slice(Slice), DiplomatOption(Box<Type>), Other(u8) }
+impl Type {
+    // hir::Type::unwrap_option (read: core/src/hir/types.rs:148): one DiplomatOption layer peeled, anything else unchanged
+    #[verifier::external_body] pub fn unwrap_option(&self) -> (r: &Type) ensures *r == (match *self { Type::DiplomatOption(o) => *o, _ => *self }) { unimplemented!() }
+}
 pub mod hir { pub use super::Type; pub use super::StructDef; }
 // what the consumer needs (gen_dart_to_c_for_type: `alloc.expect(..)` in the Slice arm when `s.lifetime()` is Some; the DiplomatOption arm
 // recurses with the same allocator; the Struct arm passes "temp"): read from the consumer, not from this function
